@@ -653,7 +653,7 @@ func runCheck(o *Options) (int, *Evidence) {
 			fmt.Println("queries kept in", tmp)
 		}
 	}()
-	d := &Discharger{dir: tmp, cache: filepath.Join(o.verif, ".cache"), noCache: os.Getenv("VERIF_NOCACHE") != "" || o.tier == "thorough",
+	d := &Discharger{dir: tmp, cache: filepath.Join(o.verif, ".cache", "v2"), noCache: os.Getenv("VERIF_NOCACHE") != "" || o.tier == "thorough",
 		timeout: o.timeout, seed: o.seed, all: o.tier == "thorough"}
 	allJobs := jobs
 	for _, sq := range seqs {
@@ -990,6 +990,13 @@ func runCheck(o *Options) (int, *Evidence) {
 		}
 		ev.Coverage["solver_matrix"] = matrix
 	}
+	cachedSeconds := 0.0
+	for _, j := range jobs {
+		if j.res.Cached {
+			cachedSeconds += j.res.CachedSeconds
+		}
+	}
+	ev.Coverage["solver_seconds_of_cached_answers_when_first_computed"] = cachedSeconds
 	ev.Coverage["solver_seconds"] = solverSeconds
 	ev.Coverage["functions_under_contract"] = funcs
 	ev.Coverage["trusted_functions"] = trusted
